@@ -346,6 +346,8 @@ func Generate(shape string, size int, seed int64, bs int) (data []byte, ok bool)
 		return []byte{}, true
 	}
 	switch shape {
+	case "uniqwords":
+		return UniqWords(r, size), true
 	case "mixed":
 		return Mixed(r, size, bs), true
 	case "mixedsafe":
@@ -364,4 +366,19 @@ func Generate(shape string, size int, seed int64, bs int) (data []byte, ok bool)
 		}
 	}
 	return nil, false
+}
+
+// UniqWords: text made of pseudo-random lower-case words that never repeat: dictionary based
+// transforms cannot shrink it (their output is slightly LONGER than their input), which makes the
+// decision "apply or decline" sit exactly on the output-size bound.
+func UniqWords(r *rand.Rand, n int) []byte {
+	out := make([]byte, 0, n+16)
+	for len(out) < n {
+		wl := 7 + r.Intn(4)
+		for i := 0; i < wl; i++ {
+			out = append(out, byte('a'+r.Intn(26)))
+		}
+		out = append(out, ' ')
+	}
+	return out[:n]
 }
